@@ -529,6 +529,9 @@ def accepted_kinds(fn, pname, observed):
 
 
 # ====================================================================== checking engine
+BUILD_FAILURES = []       # (function, origin) of every in-domain record whose arguments could not be built
+
+
 def finding(key, what, call, extra_code=None):
     code = extra_code or call.code()
     return {"key": key, "what": what, "input": code,
@@ -576,6 +579,10 @@ def check_in_domain(api, fn, call, shapes, partner=None, learn=None):
     out = []
     o1 = run_call(api, call)
     if o1.setup_exc is not None:
+        BUILD_FAILURES.append((fn.key, call.origin))
+        if not any(t in call.origin for t in ("redrawn", "shifted")):
+            out.append(finding("cannot-build-arguments:" + fn.key, "the arguments of a documented call of %s cannot be built: %s: %s (%s)" % (
+                fn.key, type(o1.setup_exc).__name__, str(o1.setup_exc)[:80], call.origin), call))
         return out, None
     if o1.exc is not None:
         out.append(finding("raises-in-domain:" + fn.key, "%s raises %s: %s on documented in-domain arguments (%s)" % (
@@ -779,7 +786,8 @@ def check_probe(api, fn, label, call, check_state=True, shapes=None):
     else:
         res = classify_exc(o.exc)
         if res != "ok":
-            out.append(finding("wrong-exception:" + fn.key, "%s with %s raises %s (%s), not TypeError/ValueError" % (
+            out.append(finding("wrong-exception:%s:%s:%s:%s" % (fn.key, label.split("=")[0], label.split("=")[-1], res),
+                               "%s with %s raises %s (%s), not TypeError/ValueError" % (
                 fn.key, label, res, str(o.exc)[:60]), call))
     for v in o.pre:
         if o.pre[v] != o.post[v] and not (v == "s" and fn.key in MUTATORS):
@@ -1255,16 +1263,18 @@ def boundary_calls(api, fn, bases, obs, cap):
                 for c in cs:
                     if integral_only and not float(c).is_integer(): continue
                     a, b, u = boundary_values(c, integral_only)
+                    cr = repr(int(c)) if float(c).is_integer() else repr(c)
                     for j, vs in enumerate((a, b, u)):
+                        cat = (cr, cr + "+-1", cr + "+-ulp")[j]
                         for x in vs:
-                            rounds[k + j].append((pname, base.with_arg(v, repr(x) if isinstance(x, int) else fsrc(x))))
+                            rounds[k + j].append((pname + "|" + cat, base.with_arg(v, repr(x) if isinstance(x, int) else fsrc(x))))
     out, seen = [], set()
     for r in rounds:
         for pname, c in r:
             code = c.code()
             if code in seen: continue
             seen.add(code)
-            c.origin = "boundary:" + pname
+            c.origin = "boundary:" + pname.split("|")[0]
             out.append((pname, c))
             if len(out) >= cap: return out
     return out
@@ -1292,6 +1302,7 @@ def check_boundary(api, fn, pname, call, shapes):
     """totality and determinism at a boundary value: an exception other than TypeError/ValueError is a
     finding everywhere; TypeError/ValueError is a finding only inside a stated domain"""
     out = []
+    pname, _, cat = pname.partition("|")
     o1 = run_call(api, call, check_state=False)
     if o1.setup_exc is not None: return out, "setup"
     inside = in_stated_domain(fn, call)
@@ -1304,7 +1315,7 @@ def check_boundary(api, fn, pname, call, shapes):
             return out, "rejected"
         if re.search(r":raises?:?\s*%s\b" % cls, fn.doc):
             return out, "documented " + cls          # e.g. ZeroDivisionError of the Angle division operators
-        key = ("raises-in-domain:" if inside else "wrong-exception:") + fn.key
+        key = ("raises-in-domain:%s" % fn.key) if inside else ("wrong-exception:%s:%s:%s:%s" % (fn.key, pname, cat, cls))
         out.append(finding(key, "%s raises %s (%s) at a boundary value of '%s' (a comparison constant of its source), not TypeError/ValueError" % (
             fn.key, cls, str(o1.exc)[:60], pname), call))
         return out, cls
@@ -1400,7 +1411,8 @@ def check_variant(api, fn, kind, call, base_ok, shapes):
                 out.append(finding("raises-in-domain:" + fn.key, "%s raises %s (%s) when its documented list arguments are given as tuples (or tuples as lists), both documented as accepted" % (
                     fn.key, cls, str(o1.exc)[:60]), call))
         elif not re.search(r":raises?:?\s*%s\b" % cls, fn.doc):
-            out.append(finding("wrong-exception:" + fn.key, "%s raises %s (%s) on a %s variant of a documented call, not TypeError/ValueError" % (
+            out.append(finding("wrong-exception:%s:%s:%s:%s" % (fn.key, kind.split(":")[1] if ":" in kind else "tables", kind.split(":")[0], cls),
+                               "%s raises %s (%s) on a %s variant of a documented call, not TypeError/ValueError" % (
                 fn.key, cls, str(o1.exc)[:60], kind.split(":")[0]), call))
     for v in o1.pre:
         if o1.pre[v] != o1.post[v] and not (v == "s" and fn.key in MUTATORS):
@@ -1426,3 +1438,47 @@ def accepts_both_sequence_types(fn, call):
         ks = kinds_of_doc(fn.types.get(param_of_var(fn, call, v))) or set()
         if not ({"list", "tuple"} <= ks): return False
     return True
+
+
+# ====================================================================== documented inclusive ranges
+def range_boundary_calls(api, recs):
+    """calls AT the ends of ranges the docstrings state as inclusive:
+      ':raises: ValueError if input epoch outside the A/B (A-B) range'  -> epochs in the first and last year
+      ':raises: ValueError if input value is outside of interpolation range' -> x at the first / last abscissa
+    returns (param, label, wording, Call); raising there is raises-in-domain:<fn>:<param>:<label>"""
+    out = []
+    for fn in api.fns.values():
+        m = re.search(r":raises:\s*(ValueError if input epoch outside the (-?\d+)[/-](-?\d+) range)", fn.doc)
+        if m and fn.params and fn.params[0].name == "epoch" and fn.kind in ("static", "func"):
+            lo, hi = int(m.group(2)), int(m.group(3))
+            for label, e in (("year%d" % lo, "Epoch(%d, 1, 1.0)" % lo), ("year%d" % lo, "Epoch(%d, 7, 1.0)" % lo),
+                             ("year%d" % hi, "Epoch(%d, 1, 1.0)" % hi), ("year%d" % hi, "Epoch(%d, 7, 1.0)" % hi),
+                             ("year%d" % hi, "Epoch(%d, 12, 31.5)" % hi)):
+                out.append(("epoch", label, m.group(1), make_call(fn, None, [e], {}, "range-boundary")))
+    seen = set()
+    for c in recs:
+        fn = api.fns.get(c.key)
+        if fn is None or fn.key not in ("Interpolation.__call__", "Interpolation.derivative"): continue
+        recv = dict(c.setup).get("s")
+        if recv in seen or recv is None: continue
+        seen.add(recv)
+        try:
+            obj = eval(recv, dict(api.ns))
+            xs = [x for x in (obj._x[0], obj._x[-1]) if isinstance(x, (int, float))]
+        except Exception:
+            continue
+        for x, label in zip(xs, ("first-abscissa", "last-abscissa")):
+            out.append(("x", label, "ValueError if input value is outside of interpolation range",
+                        make_call(fn, recv, [repr(x)], {}, "range-boundary")))
+        if len(seen) >= 6: break
+    return out
+
+
+def check_range_boundary(api, fn, param, label, wording, call, shapes):
+    fs, o = check_in_domain(api, fn, call, shapes, None)
+    for f in fs:
+        if f["key"] == "raises-in-domain:" + fn.key:
+            f["key"] = "raises-in-domain:%s:%s:%s" % (fn.key, param, label)
+            f["what"] = "%s raises %s at the end of its documented range (docstring: ':raises: %s')" % (
+                fn.key, type(o.exc).__name__ if o is not None and o.exc is not None else "?", wording)
+    return fs
